@@ -24,3 +24,8 @@ def exists_range(lo, hi, pred):
 def is_opaque(x):
     """True for objects that exist only through an interface contract (never for real instances)."""
     return type(x).__name__.startswith('Stub_')
+
+
+def items_of(it):
+    """the (remaining) items of an iterator or sequence, as a list"""
+    return list(it)
